@@ -373,6 +373,7 @@ impl Xot {
     /// # Ok::<(), xot::Error>(())
     /// ```
     pub fn insert_after(&mut self, reference_node: Node, new_sibling: Node) -> Result<(), Error> {
+        self.sibling_reference_check(reference_node)?;
         self.add_structure_check(self.parent(reference_node), new_sibling)?;
         self.remove_consolidate_text_nodes(
             self.previous_sibling(new_sibling),
@@ -393,6 +394,7 @@ impl Xot {
 
     /// Insert a new sibling before a reference node.
     pub fn insert_before(&mut self, reference_node: Node, new_sibling: Node) -> Result<(), Error> {
+        self.sibling_reference_check(reference_node)?;
         self.add_structure_check(self.parent(reference_node), new_sibling)?;
         self.remove_consolidate_text_nodes(
             self.previous_sibling(new_sibling),
@@ -877,6 +879,17 @@ impl Xot {
     /// off this behavior so text nodes are never merged by calling this.
     pub fn set_text_consolidation(&mut self, consolidate: bool) {
         self.text_consolidation = consolidate;
+    }
+
+    // attribute and namespace nodes are kept before the normal children of
+    // an element; a normal node can therefore not be inserted next to them
+    fn sibling_reference_check(&self, reference_node: Node) -> Result<(), Error> {
+        match self.value_type(reference_node) {
+            ValueType::Attribute | ValueType::Namespace => Err(Error::InvalidOperation(
+                "Cannot insert a sibling next to an attribute or namespace node".into(),
+            )),
+            _ => Ok(()),
+        }
     }
 
     fn add_structure_check(&self, parent: Option<Node>, child: Node) -> Result<(), Error> {
